@@ -267,12 +267,20 @@ def c10_4(ctx):
                       "%s does not handle both UnexpectedDER and ValueError from the DER decoder (handles %s)" % (fn, sorted(names)))
 
 
+def c10_5(ctx):
+    """coordinates are field elements (shared with C02.7); the application-level verifier decodes DER strictly (shared with C01.7)"""
+    from rules import C02, C01
+    C02.c02_7(ctx)
+    C01.c01_7(ctx)
+
+
 OBLIGATIONS = [
     Ob("C10.1", "SEC decoder: strict (prefix, length) decision table; coordinates below p before acceptance", c10_1, floor=8, engines="SYM,GI(finite),MK",
        breaks_if="02||(x+p); hybrid prefixes 06/07 in strict mode; wrong lengths", exhaustive=True),
     Ob("C10.2", "Key.__init__: secret exponent accepted exactly on [1, n-1]; public pair validated", c10_2, floor=3, engines="SYM,GI"),
     Ob("C10.3", "WIF: payload length {32,33} measured after the prefix strip, marker 01, flag = 33 bytes", c10_3, floor=5, engines="SYM,GI",
        breaks_if="two-byte WIF prefixes (DCR); marker byte != 01; 34-byte payload; exponent 0"),
+    Ob("C10.5", "public pairs need field-element coordinates; Key.verify decodes DER strictly and turns decoder errors into False", c10_5, floor=5, engines="SYM,GI", breaks_if="(Gx, Gy - p); sig + b'\\x00'"),
     Ob("C10.4", "DER encoder / strict and lenient decoder equal the reference transcription (canonical forms); callers handle the documented errors", c10_4, floor=10, engines="SYM",
        breaks_if="sig + b'\\x00' in strict mode; truncated 30 / 30 02 02"),
 ]
